@@ -129,7 +129,16 @@ class TCPTransport(KNXIPTransport):
                 self.remote_hpai,
                 knxipframe,
             )
-            self.handle_knxipframe(knxipframe, self.remote_hpai)
+            try:
+                self.handle_knxipframe(knxipframe, self.remote_hpai)
+            except CouldNotParseKNXIP as err:
+                # eg. a SecureWrapper received before the secure session is
+                # initialized - discard it instead of closing the connection
+                knx_logger.debug(
+                    "Discarding KNXIPFrame from %s: %s",
+                    self.remote_hpai,
+                    err.description,
+                )
             # parse data after current KNX/IP frame
             raw = next_frame_part
 
